@@ -405,6 +405,15 @@ pub fn scenarios(thorough: bool) -> Vec<Scenario> {
                    },
                    send: node_ok.0.clone(), get: node_ok.1.clone(),
                    conc: vec![COp::Sub { user: 1 }, COp::Conn(vec![])], after: vec![] },
+        // a renewal racing with the block that completes one of the user's trackers (refund): neither update may be lost
+        Scenario { name: "register-vs-completing-block", cfg: (3, 400, 2), height: 100,
+                   setup: {
+                       let mut s = vec![COp::Reg(1), COp::Add { user: 1, loc: 1, blob: enc(1, 0), tsd: 10 }, COp::Conn(vec![1]), COp::Conn(vec![1010])];
+                       for _ in 0..99 { s.push(COp::Conn(vec![])); }
+                       s
+                   },
+                   send: node_ok.0.clone(), get: node_ok.1.clone(),
+                   conc: vec![COp::Reg(1), COp::Conn(vec![])], after: vec![] },
         Scenario { name: "two-users-same-locator", cfg: (3, 50, 2), height: 100, setup: vec![COp::Reg(1), COp::Reg(2)], send: node_ok.0.clone(), get: node_ok.1.clone(),
                    conc: vec![COp::Add { user: 1, loc: 1, blob: enc(1, 0), tsd: 10 }, COp::Add { user: 2, loc: 1, blob: enc(1, 0), tsd: 10 }], after: vec![] },
     ];
